@@ -47,6 +47,21 @@ CAST_BELIEFS = [
 ]
 
 
+def in_v0_scope(fname, site, lscope):
+    """V0 covers everything outside the sizing code, all of the sizing code's own functions (determine_*,
+    try_fs_layout, format_bpb, format_boot_sector, estimate_fat_type), and the division sites of the BPB / FatType
+    methods they call on the not-yet-validated BPB (the other sites of those methods are analysed in their
+    post-validation contexts only)"""
+    if fname not in lscope:
+        return True
+    if site['kind'] in DIV_KINDS:
+        return True
+    return not fname.startswith(UNVALIDATED_METHODS)
+
+
+UNVALIDATED_METHODS = ('fatfs::boot_sector::BiosParameterBlock::', 'fatfs::fs::FatType::')
+
+
 def calls_of(toks):
     return {tk[1].rsplit('::', 1)[-1] for tk in toks if tk[0] == 'call'}
 
@@ -104,10 +119,10 @@ def run(ctx, rep):
         col = panics.run_inventory(facts, roots, base_fields=base)
         table = panics.load_discharge_table()
         classes = panics.report_sites(rep, 'V0', col, table, prop_note='reachable while formatting',
-                                      scope_pred=lambda fn, site: fn.name not in lscope or site['kind'] in DIV_KINDS)
-        skipped = len([1 for (fname, b), site in col.sites.items() if fname in lscope and site['kind'] not in DIV_KINDS])
+                                      scope_pred=lambda fn, site: in_v0_scope(fn.name, site, lscope))
+        skipped = len([1 for (fname, b), site in col.sites.items() if not in_v0_scope(fname, site, lscope)])
         rep.notes.append('format-path panic sites outside the layout code by discharge class: %s; %d sites inside the '
-                         'sizing arithmetic (%d functions reachable from format_boot_sector) are NOT analysed' % (
+                         'sizing code (overflow sites of BPB / FatType methods called on the not yet validated BPB; %d functions reachable from format_boot_sector) are NOT analysed' % (
                              classes, skipped, len(lscope)))
         rep.counts['V0.not-analysed'] = skipped
     # ---------------- V1 validate before the first write
